@@ -14736,6 +14736,9 @@ func (l *Lowerer) lowerTextureLoad(args []parser.Expr, target *[]ir.Statement) (
 	//   textureLoad(t, coords, array_index, level)  — arrayed sampled textures
 	//   textureLoad(t, coords, sample_index)         — multisampled textures
 	//   textureLoad(t, coords)                       — storage textures
+	if len(args) < 2 {
+		return 0, fmt.Errorf("textureLoad requires at least 2 arguments, got %d", len(args))
+	}
 	image, err := l.lowerExpression(args[0], target)
 	if err != nil {
 		return 0, err
